@@ -504,6 +504,26 @@ func (g *Exec) Stmt(sd, d int) *ir.Node {
 		n := ir.N(ir.Return, "", nil)
 		if r.Intn(4, "retval") > 0 {
 			n.Kids[0] = g.Expr(vkind(r.Intn(3, "retkind")), d)
+		} else if r.Bool("guard") {
+			// a guard `if (c) return` followed by a statement whose first token could
+			// continue an expression (- ( [ { or a backtick): after a line break the
+			// bare return is complete and the next line is a statement of its own
+			var next *ir.Node
+			switch r.Intn(5, "afterreturn") {
+			case 0:
+				next = estmt(ir.N(ir.Unary, "-", g.Expr(kNum, 1)))
+			case 1:
+				next = estmt(call(ir.N(ir.Member, "toString", bin("+", g.Expr(kNum, 1), num("1")))))
+			case 2:
+				next = estmt(ir.N(ir.Member, "length", ir.N(ir.Array, "", g.Expr(kNum, 1))))
+			case 3:
+				next = ir.N(ir.Block, "")
+				next.Kids = []*ir.Node{}
+			default:
+				next = estmt(ir.N(ir.Member, "length", ir.N(ir.Tpl, "t")))
+			}
+			g.feat("guard-return-then-hazard-start")
+			return ir.N(ir.Block, "", ir.N(ir.If, "", g.Expr(kBool, 1), n, nil), next, printOf(g.Expr(kNum, 1)))
 		}
 		g.feat("early-return")
 		return n
@@ -529,6 +549,29 @@ func (g *Exec) Program(max int) *ir.Node {
 	depth := 1 + g.R.Intn(3, "edepth")
 	for i, n := 0, 1+g.R.Intn(max, "ntop"); i < n; i++ {
 		p.Kids = append(p.Kids, g.Stmt(2, depth))
+	}
+	if g.R.Intn(4, "guardfn") == 0 {
+		// a function with a guard `if (p > k) return` followed by a statement whose
+		// first token could continue an expression; both outcomes are printed
+		name, param := g.fresh("g"), g.fresh("p")
+		var next *ir.Node
+		switch g.R.Intn(5, "afterguard") {
+		case 0:
+			next = estmt(ir.N(ir.Unary, "-", idn(param)))
+		case 1:
+			next = estmt(call(ir.N(ir.Member, "toString", bin("+", idn(param), num("1")))))
+		case 2:
+			next = estmt(ir.N(ir.Member, "length", ir.N(ir.Array, "", idn(param))))
+		case 3:
+			next = ir.N(ir.Block, "")
+			next.Kids = []*ir.Node{}
+		default:
+			next = estmt(ir.N(ir.Member, "length", ir.N(ir.Tpl, "t")))
+		}
+		body := ir.N(ir.Block, "", ir.N(ir.If, "", bin(">", idn(param), num("1")), ir.N(ir.Return, "", nil), nil), next, ir.N(ir.Return, "", bin("*", idn(param), num("2"))))
+		p.Kids = append(p.Kids, &ir.Node{K: ir.FuncDecl, Op: name, Params: []string{param}, Kids: []*ir.Node{body}},
+			printOf(call(idn(name), num("0")), call(idn(name), num("5"))))
+		g.feat("guard-function")
 	}
 	var args []*ir.Node
 	for _, v := range g.scopes[0] {
